@@ -259,6 +259,31 @@ func ParseSuiteName(name string) (Suite, bool) {
 	return s, true
 }
 
+// ParseSuiteNameFold is ParseSuiteName for spellings that differ from the RFC form only in the letter case
+// of the crypto-function and data-input tokens (the library's parser accepts e.g. "qn08"); the version tag
+// must be exactly "OCRA-1", the time unit must be upper case (as the library requires), and Raw is the string as given.
+func ParseSuiteNameFold(name string) (Suite, bool) {
+	parts := strings.Split(name, ":")
+	if len(parts) != 3 || parts[0] != "OCRA-1" {
+		return Suite{Raw: name}, false
+	}
+	toks := strings.Split(parts[2], "-")
+	for i, t := range toks {
+		// keep the unit letter of a time token as written
+		if len(t) >= 2 && (t[0] == 'T' || t[0] == 't') {
+			toks[i] = "T" + strings.ToUpper(t[1:len(t)-1]) + t[len(t)-1:]
+			if allDigits(t[1:]) {
+				toks[i] = "T" + t[1:]
+			}
+		} else {
+			toks[i] = strings.ToUpper(t)
+		}
+	}
+	s, ok := ParseSuiteName(parts[0] + ":" + strings.ToUpper(parts[1]) + ":" + strings.Join(toks, "-"))
+	s.Raw = name
+	return s, ok
+}
+
 func allDigits(s string) bool {
 	if s == "" {
 		return false
